@@ -89,3 +89,9 @@ package engine
 //@   checks [no_events_on_error] typeis(result1, *Error) ==> (isnil(result0) || len(result0.(*sprint).events) == 0)
 //@   checks [codes] typeis(result1, *Error) ==> (result1.(*Error).code == ErrorResumeNonWaitingSession || result1.(*Error).code == ErrorResumeNoWaitingRun || result1.(*Error).code == ErrorResumeRejectedByWait)
 //@   checks [not_waiting_rejected] old(s.status) != flows.SessionStatusWaiting ==> !isnil(result1)
+
+// ---- C06: the engine's own re-evaluation of query based groups (start and every resume)
+//@ func (s *session) ensureQueryBasedGroups
+//@   requires s != nil && (s.contact != nil ==> (contactAssetsOK(s.contact) && groupsOK(s.contact.groups) && noDupUUIDs(s.contact.groups.groups)))
+//@   assigns flows.GroupList::groups, effects(flows.EventCallback)
+//@   ensures [match] s.contact != nil ==> groupsMatch(s.contact, s.env)
